@@ -89,6 +89,14 @@ class table_E_B_D_T_(DefaultTable.DefaultTable):
                         glyphDict[curLoc] = curGlyph
                     bitmapGlyphDict[curName] = curGlyph
 
+    def ensureDecompiled(self, recurse=False):
+        # Bitmap glyphs decode lazily, and component glyphs (formats 8 and 9) resolve
+        # their component glyph IDs through the font's glyph order at that time.
+        if recurse:
+            for bitmapGlyphDict in self.strikeData:
+                for curGlyph in bitmapGlyphDict.values():
+                    curGlyph.ensureDecompiled()
+
     def compile(self, ttFont):
         dataList = []
         dataList.append(sstruct.pack(ebdtTableVersionFormat, self))
